@@ -9311,6 +9311,10 @@ class NetCDFRead(IORead):
             if cell_dimension == 1:
                 data = data.transpose()
 
+            if start_index:
+                # Make sure that the node identifiers are zero-based
+                data -= start_index
+
         # Initialise the domain topology variable
         domain_topology = self.implementation.initialise_DomainTopology(
             cell=cell,
